@@ -85,9 +85,9 @@ META = {
         "note": "Trusted: reply encoder built on go-nl's attribute encoder, reference IE decoder, engine + z3. Instants and durations are concrete samples (the conversions divide by 10^9 / go through float64). Bound: batches of <= 2 (quick) / 3 (thorough) reports.",
     },
     "C20": {
-        "text": "PARTIAL. Decided: (1) the gtp5g version window - Gtp5g.checkVersion against the simulated kernel with every digit of [v]X.Y.Z symbolic, the oracle being the property's bounds 0.9.5 <= v < 0.10.0 hard-wired (so a changed constant or comparison is a violation); (2) forwarder.NewDriver opens nothing for an invalid gtpu section and otherwise exactly the first interface at port 2152 with its MTU, propagating open failure; (3) ReadConfig returns (nil, error) whenever any stage fails and the unmarshalled values unchanged otherwise. NOT decided: which YAML documents yaml.v2 and govalidator accept (struct tags interpreted through reflection cannot be executed symbolically).",
+        "text": "PARTIAL. Decided: (1) the gtp5g version window - Gtp5g.checkVersion against the simulated kernel with every digit of [v]X.Y.Z symbolic, the oracle being the property's bounds 0.9.5 <= v < 0.10.0 hard-wired (so a changed constant or comparison is a violation); (2) forwarder.NewDriver opens nothing for an invalid gtpu section and otherwise exactly the first interface at port 2152 with its MTU, propagating open failure; (3) ReadConfig returns (nil, error) whenever any stage fails and the unmarshalled values unchanged otherwise. (4) which configuration documents are accepted: a valid reference document perturbed by every choice of up to 2 (thorough: 3) faults among 17 fields x 5 fault kinds goes through ReadConfig with a validator model generated on every run from the struct tags of the working tree; ReadConfig must accept iff the property's hand-written definition of a valid configuration does, and accepted values must be unchanged; every explored document is also run natively through the real yaml.v2 + govalidator + ReadConfig as a file, so the tag model and the YAML model are cross-validated on each run. Still PARTIAL: documents that are not perturbations of the reference document, tags outside the modelled vocabulary (exit 2), DNS-dependent node ids.",
         "design_ref": "DESIGN.md section 6 C20 and section 7",
-        "note": "Trusted: go-version NewVersion/Compare models (replayed natively against the real library on every witness), engine-only models for OpenGtp5g / os.ReadFile / yaml.Unmarshal / govalidator.ValidateStruct (parts 2 and 3 have no native replay). The configuration-validation half of the statement is outside the claim.",
+        "note": "Trusted: go-version NewVersion/Compare models (replayed natively against the real library on every witness), engine-only models for OpenGtp5g / os.ReadFile / yaml.Unmarshal / govalidator.ValidateStruct (parts 2 and 3 have no native replay); part 4 trusts the generated validator model and the YAML model only as far as the per-run native cross-validation of every explored document goes.",
     },
     "C07": {
         "text": "Bounded model checking through the real event loop, in two families. (a) Envelope: after a valid prefix that creates and deletes sessions, one datagram of n fully symbolic octets (quick: every n<=12 with any of the 256 message types, n in 8..14 with a dispatched type; thorough: n<=16 / 8..18), from the associated or an unknown peer, goes through rcvCh -> go-pfcp message.Parse (header, message and IE decoders executed symbolically) -> transactions -> dispatcher -> handlers -> driver; then a Heartbeat must be answered with the right type and sequence number and the bystander session must be intact unless the datagram addressed it. This family found the empty-datagram shutdown (n=0), fixed in 6889c4c. (b) IE payloads: for each of 39 leaf IE types go-upf or the gtp5g driver decodes, a request whose one IE of that type carries a symbolic payload of every length 0..nominal+2 is marshalled, fed to PfcpServer.main (so its recover -> log.Fatalf is observed as 'the process exits'), with the no-op driver and with the gtp5g driver on a simulated kernel; afterwards a Heartbeat must be answered and a bystander session must be intact. Every reachable panic is a solver query on the faulting condition. Header-SEID addressing over the whole 64-bit range is decided by C04's request-header harnesses.",
